@@ -419,7 +419,16 @@ def write_synthetic_projects(outdir, n, seed):
     rng = random.Random(seed)
     os.makedirs(outdir, exist_ok=True)
     for i in range(n):
-        p = random_project(rng)
+        p = random_project(rng, nspaces=2) if i % 5 == 3 else random_project(rng)
+        if i % 5 == 3:
+            # two occupied spaces whose occupancy calendars have different lengths (one ends on 30 November): the library
+            # converts such a project (and reports the mismatch at error level while computing), so the tools must export it
+            p["years"].append({"name": "AnualCorto", "dates": [[31, 7], [30, 11]], "weeks": ["SemanaLab", "SemanaLab"]})
+            p["spaceconds"].append({"name": "Temporada", "people": "AnualCorto", "equip": "AnualOcup", "light": "AnualOcup", "aperson": 10, "psens": 40, "plat": 20})
+            sps = [sp for fl in p["floors"] for sp in fl["spaces"]]
+            for k, sp in enumerate(sps):
+                sp["type"], sp["inside"] = "CONDITIONED", True
+                sp["spacecond"] = "Temporada" if k == 0 else "Residencial"
         d = os.path.join(outdir, "synth%03d" % i)
         os.makedirs(d, exist_ok=True)
         zone = rng.choice(["D3", "A3", "B4", "C2", "E1", "A3c"])
